@@ -109,6 +109,35 @@ func runC07(w *World, p map[string]int) {
 		return
 	}
 	src := x.Wallets[ids[t.Int(len(ids))]]
+	// gap boundary: the wallet's last issued address k is paid, addresses are
+	// issued as far as the live gap rule allows (index k+gap), and that last
+	// one is paid too - exactly gap-1 unused addresses lie between two used
+	// ones, the widest hole a restore scan still has to bridge
+	boundary := false
+	if !long && len(src.Issued) > 0 && t.Bool(param(p, "boundarypct", 30)) {
+		gapLim := k.GapLimit
+		kIdx := src.Issued[len(src.Issued)-1].Index
+		var hk [32]byte
+		copy(hk[:], src.HD.Addr(kIdx).ScriptHash)
+		if kIdx >= 1 && w.PayHash(t, hk, 3000000+int64(t.Int(1000))) && quiesceAll(w, "C07", 30000) {
+			for len(src.Issued) > 0 && src.Issued[len(src.Issued)-1].Index < kIdx+gapLim {
+				if err := w.IssueAddress(x, src, false, true, "C07"); err != nil || len(w.Violations) > 0 {
+					break
+				}
+			}
+			if len(w.Violations) > 0 {
+				return
+			}
+			if last := src.Issued[len(src.Issued)-1].Index; last == kIdx+gapLim {
+				var hl [32]byte
+				copy(hl[:], src.HD.Addr(last).ScriptHash)
+				if w.PayHash(t, hl, 2000000+int64(t.Int(1000))) && quiesceAll(w, "C07", 30000) {
+					boundary = true
+					w.Stat("probe.restore_across_widest_gap")
+				}
+			}
+		}
+	}
 	// the restoring instance
 	y := w.NewInstance("Y")
 	if err := y.Open(); err != nil {
@@ -155,6 +184,10 @@ func runC07(w *World, p map[string]int) {
 	hint := uint32(len(src.Issued))
 	if t.Bool(40) {
 		hint = uint32(t.Int(len(src.Issued) + 2))
+	}
+	if boundary && t.Bool(75) {
+		// a low hint: the scan itself has to bridge the hole
+		hint = uint32(t.Int(2))
 	}
 	gap := y.Cfg.Wallet.Settings.AddressGapLimit
 	reachAtImport := scanReach(w, src.HD, hint, gap)
